@@ -51,7 +51,6 @@ Definition judge_expand (c : str * expect * outcome (net * list str) * list (N *
     | Some n, Ok (n', pats) =>
         net_eqb n n' && match expand n with Ok l => strs_eqb l pats | _ => false end
         && forallb (fun at_ => str_eqb (show6 (fst at_)) (snd at_)) samples
-    | Some n, Crash t => match expand n with Crash t' => t =? t' | _ => false end
     | _, _ => false
     end in
   let prop_ok (n : net) (pats : list str) :=
@@ -98,7 +97,6 @@ Definition judge_native (c : str * net * outcome (list str) * outcome str * list
     | Some m, Ok fs => strs_eqb (native_fields m) fs &&
                        match expand m, q with
                        | Ok pats, Ok qt => str_eqb (expanded_query pats) qt
-                       | Crash t, Crash t' => t =? t'
                        | _, _ => false
                        end
     | None, SigmaErr t => (t =? E_Type) && match q with SigmaErr t' => t' =? E_Type | _ => false end
